@@ -369,8 +369,13 @@ def hilbert_cpu_list(meta, scaling, select, infofile):
             inds = np.argwhere(func_test.values).ravel()
             start = xyz_centers[inds.min()] - (half_dxmin * scaling.units)
             end = xyz_centers[inds.max()] + (half_dxmin * scaling.units)
-            bounding_box["{}min".format(c)] = start._array / box_size
-            bounding_box["{}max".format(c)] = end._array / box_size
+            # A cell is stored with its parent oct, and the oct is assigned to the CPU that
+            # owns the key of the *oct* centre, which lies up to half a cell away from the
+            # cell centre along each axis (at most 0.5**(levelmin + 1) for the coarsest
+            # leaves). Pad the box so that it also contains those oct centres.
+            pad = 0.5 ** (meta.get("levelmin", 1) + 1)
+            bounding_box["{}min".format(c)] = max(start._array / box_size - pad, 0.0)
+            bounding_box["{}max".format(c)] = min(end._array / box_size + pad, 1.0)
 
     if new_bbox:
         return _get_cpu_list(
